@@ -22,6 +22,9 @@ pub struct Style {
     pub trail: &'static str,
     /// 0: `x = c`  1: `x=c`  2: `x =c`  3: `x= c`
     pub eq: u8,
+    /// write a TAB inside an argument as the character itself instead of the `\t` escape (only space
+    /// separates arguments); an argument that starts or ends with a TAB is then quoted
+    pub raw_tab: bool,
 }
 
 pub const PLAIN: Style = Style {
@@ -30,6 +33,7 @@ pub const PLAIN: Style = Style {
     lead: "",
     trail: "",
     eq: 0,
+    raw_tab: false,
 };
 
 pub fn escape(arg: &str) -> String {
@@ -71,6 +75,38 @@ pub fn render_arg(arg: &str, quote: bool) -> String {
     }
 }
 
+fn render_arg_style(arg: &str, quote: bool, raw_tab: bool) -> String {
+    let mut e = escape(arg);
+    let mut quote = quote;
+    if raw_tab && arg.contains('\t') {
+        e = escape_with_raw_tab(arg);
+        if arg.starts_with('\t') || arg.ends_with('\t') {
+            quote = true;
+        }
+    }
+    if quote {
+        format!("\"{}\"", e)
+    } else {
+        e
+    }
+}
+
+/// the escaped form of `arg` with TAB written raw
+fn escape_with_raw_tab(arg: &str) -> String {
+    let mut s = String::new();
+    for c in arg.chars() {
+        match c {
+            '\\' => s.push_str("\\\\"),
+            '"' => s.push_str("\\\""),
+            '\n' => s.push_str("\\n"),
+            '\r' => s.push_str("\\r"),
+            '\t' => s.push('\t'),
+            c => s.push(c),
+        }
+    }
+    s
+}
+
 pub fn render(i: &Instr, st: &Style) -> String {
     let sep = " ".repeat(st.sep);
     let mut parts: Vec<String> = vec![];
@@ -101,7 +137,7 @@ pub fn render(i: &Instr, st: &Style) -> String {
     if i.command.is_some() {
         for (n, a) in i.args.iter().enumerate() {
             let q = st.quote_optional || needs_quotes(a, n == 0, i.output.is_some());
-            parts.push(render_arg(a, q));
+            parts.push(render_arg_style(a, q, st.raw_tab));
         }
     }
     format!("{}{}{}", st.lead, parts.join(&sep), st.trail)
